@@ -14,3 +14,24 @@ Definition proc_case_ok (c : proc_case) : bool :=
   let fs := fields_of levels in
   obs_eqb fs obs && (let '(a, b) := pos_range fs 0 0 in Nat.eqb a mn && Nat.eqb b mx).
 Definition proc_mismatches := mismatches proc_case_ok.
+
+(* ---- type-variable substitution: util.replace_typevars against tsubst ---- *)
+Fixpoint tyexp_eqb (a b : tyexp) {struct a} : bool :=
+  match a, b with
+  | EVar n, EVar m => Nat.eqb n m
+  | EConst s, EConst s' => String.eqb s s'
+  | EApp s args, EApp s' args' =>
+      String.eqb s s' &&
+      (fix go (l m : list tyexp) : bool :=
+         match l, m with
+         | [], [] => true
+         | x :: r, y :: q => tyexp_eqb x y && go r q
+         | _, _ => false
+         end) args args'
+  | _, _ => false
+  end.
+(* bindings (type variable index, replacement), the expression, the expression pane returned *)
+Definition subst_case := (list (nat * tyexp) * tyexp * tyexp)%type.
+Definition subst_case_ok (c : subst_case) : bool :=
+  let '(b, e, r) := c in tyexp_eqb (tsubst (sigma_of b) e) r.
+Definition subst_mismatches := mismatches subst_case_ok.
